@@ -1193,3 +1193,27 @@ def replay(ctx, case):
         res = run_world((w, ctx.repo, os.path.join(ctx.tmp, "replay"), time.time() + 600, "replay"))
         for v in res["violations"]:
             ctx.violation(v["what"], v["case"], v["signature"])
+
+
+MANIFEST = {
+    "text": "Proved in Lean for all projects, histories, download modes/depths and archives whose entries are Honest or Corrupt "
+            "(Props/C07.lean, 25 theorems): honest_archive (a cook with downloads ends with the same package contents as a local "
+            "build), invariant_preserved, accepted_download_verified (a downloaded result is recorded only with an audit trail that "
+            "records the hash of the workspace content), corrupt_rejected, stale_download_pruned, misprediction_restart and "
+            "restart_terminates, upload_then_download_no_build (archive completeness as explicit hypothesis), bid_pure / "
+            "bid_sensitive / bid_propagates_arg / bid_location_free over the byte-exact Build-Id encoding of Model/Digest.lean; "
+            "bid_injective is _partial (ToolsFramed + HostFramed; the unrestricted goal is refuted by a witness). The model "
+            "(Model/Download.lean) is a hand-written transliteration of the download/upload/restart logic of builder.py, tied to "
+            "the source by constants regenerated with ast (mode table of __setDownloadMode evaluated for every mode, initial depths, "
+            "platform tag parts) and by a differential run: a unit stream through the real LocalBuilder._downloadPackage and mode "
+            "setters, every real _downloadPackage call and every fresh-workspace invocation of the world oracle against dlOps/cook. "
+            "Oracle: real upload/download worlds (one LocalArchive, workspaces at different paths, host fingerprint changes within one "
+            "workspace history, strong tools, corrupt/stale artifacts, wrong live-build-id predictions incl. diamond + packages= filter, "
+            "all download modes) compared with purely local builds.",
+    "note": "trusted: Lean kernel, harness/props/c07.py + harness/gen/c07_*.py, tools/consts/c07.py, SHA-1 collision freedom on the "
+            "compared encodings (hypothesis), the tar codec (C08), scripts deterministic; archive assumed Honest-or-Corrupt (an internally "
+            "consistent artifact filed under a foreign Build-Id is outside the assumption); not covered: shared packages, Jenkins mode, "
+            "--build-only/--no-deps/--resume, -j>1, audit disabled",
+    "technique": "Lean 4 proof over hand-written model + differential correspondence (real _downloadPackage calls and invocations) + real "
+                 "upload/download worlds as oracle",
+}
